@@ -264,7 +264,7 @@ def _evaluate(ctx, net, which, spec, prof, kind, step, tol_m, rep, report, stats
 def make_specs(ctx, n, profiles=("water", "gas"), heat_every=6):
     specs = []
     for i in range(n):
-        force = [["pc", "standby"], ["multi_eg"], ["pumps"], None, None][i % 5]
+        force = [["pc", "standby"], ["multi_eg"], ["pumps", "compressors"], ["circ"], None][i % 5]
         if heat_every and i % heat_every == heat_every - 1:
             specs.append(H.gen_spec(ctx.rng, ("heat",)))
         else:
